@@ -15,6 +15,8 @@
 #    along with this program.  If not, see <http://www.gnu.org/licenses/>.
 
 __author__ = "Simon Wessing"
+import numpy as np
+
 from ._pf import non_dominated_set
 
 
@@ -44,6 +46,7 @@ def hypervolume(pointset, ref):
         float: The total hypervolume that is contained between the points in
         pointset and the reference point.
     """
+    pointset = np.asarray(pointset, dtype=float)
     nds = non_dominated_set(pointset, return_mask=True)
     hv = _HyperVolume(ref)
     return hv.compute(pointset[nds])
